@@ -4,7 +4,7 @@
 set -e
 PATCH=$(readlink -f "$1"); PROP=$2; TIER=${3:-quick}
 WT=/tmp/try_$$
-git -C /repo worktree add --detach -q $WT HEAD
+git -C /repo worktree add --detach -q $WT ${MUT_BASE:-HEAD}
 ( cd $WT && git apply "$PATCH" ) || { echo "patch does not apply"; git -C /repo worktree remove --force $WT; exit 2; }
 cd /verif
 # the evidence file of the registered check must come from /repo itself: keep it aside while the check runs on the patched tree
